@@ -1,0 +1,10 @@
+//go:build verif
+
+package clightning
+
+import "github.com/elementsproject/glightning/glightning"
+
+// VerifBuildDirectClaimRoute exposes buildDirectClaimRoute to the verification harness.
+func VerifBuildDirectClaimRoute(bolt11 *glightning.DecodedBolt11, scid string, maxTotalCLTVDelta uint32) ([]glightning.RouteHop, error) {
+	return buildDirectClaimRoute(bolt11, scid, maxTotalCLTVDelta)
+}
